@@ -8,7 +8,7 @@ import os
 import sys
 import tempfile
 import time
-from contextlib import redirect_stdout
+from contextlib import redirect_stderr, redirect_stdout
 
 from bounded import nixgen as G
 
@@ -89,6 +89,22 @@ def _check(chunk):
                     fail("refused-value-changed-document")
             except Exception as e:
                 fail(f"value-raises:{type(e).__name__}")
+            # the same through the CLI (the argument must reach the library as it was given): non-zero status, nothing on stdout
+            if (i % 20 == 0 or not t.isascii()) and "\x00" not in t and not t.startswith("-"):
+                old_stdin = sys.stdin
+                sys.stdin = io.StringIO("{ a = 1; }\n")
+                buf = io.StringIO()
+                try:
+                    with redirect_stdout(buf), redirect_stderr(io.StringIO()):
+                        rc = main(["set", "a", t])
+                except SystemExit as e:
+                    rc = e.code if isinstance(e.code, int) else 1
+                except Exception:
+                    rc = 1
+                finally:
+                    sys.stdin = old_stdin
+                if rc == 0 or buf.getvalue() != "":
+                    fail("cli-accepts-invalid-value")
     os.unlink(tmp.name)
     return n, n_err, bad
 
@@ -104,9 +120,21 @@ def exotic_values():
                 yield dict(text=shape, template="exotic-whitespace", kind=f"U+{ord(ws):04X}")
 
 
+# well-formed expressions in which one character is replaced by a look-alike that Unicode normalisation would map back to it
+LOOKALIKES = {";": ["\u037e", "\uff1b"], "K": ["\u212a"], "=": ["\uff1d"], "{": ["\uff5b"], '"': ["\uff02", "\u201c"], "1": ["\uff11"], "A": ["\u212b"]}
+
+
+def lookalike_values():
+    for core in ("{ b = 1; }", "let x = 1; in x", "Kelvin", "x: x.K", '"A"', "{ K = 1; }"):
+        for ch, subs in LOOKALIKES.items():
+            if ch in core:
+                for sub in subs:
+                    yield dict(text=core.replace(ch, sub, 1), template="look-alike", kind=f"U+{ord(sub):04X}-for-{ch}")
+
+
 def run(tier, seed):
     t0 = time.time()
-    progs = list(G.faults(tier)) + list(exotic_values())
+    progs = list(G.faults(tier)) + list(exotic_values()) + list(lookalike_values())
     chunks = [progs[i::64] for i in range(64)]
     with mp.get_context("fork").Pool(16) as pool:
         res = pool.map(_check, [c for c in chunks if c], chunksize=1)
